@@ -15,7 +15,16 @@ REQUIRED = ["DaeVerif.C15.Props." + n for n in (
     "no_alive_error_iff_all_tried_empty",
     "select_min_is_unbeaten",
     "select_mem_selectAll",
+    "best_is_alive_or_nil",
+    "nil_iff_no_alive_full_fails",
+    "switch_only_when",
+    "selected_node_is_alive_all_histories",
+    "group_invariant_all_histories_partial",
+    "chooseSelect_is_a_select",
 )]
+REQUIRED = [n.replace("Props.alive_set_invariant", "Props.alive_set_invariant_partial") if n.endswith(".alive_set_invariant") else n for n in REQUIRED]
+
+SENTINEL_KEY = "c15-hour-sentinel"
 
 
 def compare(op, im, mo):
@@ -57,9 +66,18 @@ def run(ctx):
     if rc != 0:
         ctx.say("HARNESS-FAILED", out[-3000:])
         return 2
+    # control/dial.go: the real chooseProxyDialer over a real group (package control)
+    binc = ctx.go_test_build("control", ["control/c15_test.go"], "c15dial",
+                             extra_overlay={os.path.join(REPO, "component", "outbound", "dialer", "zz_verif_c15_shim.go"): shim})
+    if not binc:
+        return 2
+    rc, out = ctx.run_harness(binc, "TestVerifC15Dial")
+    if rc != 0:
+        ctx.say("HARNESS-FAILED", out[-3000:])
+        return 2
     n_eval = 0
     distinct = set()
-    for label in ("c15", "c15oob"):
+    for label in ("c15", "c15dial", "c15oob"):
         ops, impl, model = (os.path.join(ctx.out, label + "." + e) for e in ("ops", "impl", "model"))
         if not os.path.exists(ops):
             ctx.say("HARNESS-FAILED no stream", label)
@@ -86,7 +104,7 @@ def run(ctx):
         n_eval += len(lo)
         # property-level oracle on the implementation side: inside the theorems' hypotheses the
         # three invariant bits printed by the real code must all be 1
-        if label == "c15":
+        if label in ("c15", "c15dial"):
             for i, (op, im) in enumerate(zip(lo, li)):
                 if im.startswith("crash:"):
                     ctx.report(f"real code panicked on `{op}`: {im[:300]}", {"stream": label, "line": i + 1, "op": op, "impl": im})
@@ -94,13 +112,32 @@ def run(ctx):
                     if " inv=" in part and " inv=111" not in part:
                         ctx.report(f"alive-set invariant broken on the implementation after `{op}`: {part[:300]}",
                                    {"stream": label, "line": i + 1, "op": op, "impl": im})
-                if op.startswith("sel ") or op.startswith("told ") or op.startswith("sample "):
+                if op.startswith(("sel ", "told ", "sample ", "choose ")):
                     distinct.add(im)
+    # finding candidate (outside the theorems' hypotheses): replay of the Lean witness
+    # nil_iff_no_alive_full_fails on the real code = first scenario of stream c15oob.
+    oo, oi = read_lines(os.path.join(ctx.out, "c15oob.ops")), read_lines(os.path.join(ctx.out, "c15oob.impl"))
+    wit = list(zip(oo[:7], oi[:7]))
+    reproduced = (len(wit) == 7 and wit[5][0].startswith("sample 2 0") and " len=1 " in (" " + wit[5][1]) and "best=nil" in wit[5][1]
+                  and wit[6][0].startswith("sel t 4") and wit[6][1] == "err=noalive")
+    n_sentinel = sum(1 for l in oi for part in l.split(" | ") if " inv=110" in part)
+    ctx.cov["finding_candidates"] = {SENTINEL_KEY: {"reproduced_on_real_code": reproduced, "witness": wit,
+                                                    "oob_lines_with_alive_but_nil_best": n_sentinel}}
+    if reproduced:
+        what = ("a node whose sorting latency (measurement + add_latency) reaches time.Hour is alive but never selectable: "
+                "group {n0 [add_latency: 1h], n1}, n1 dead for tcp4, n0 probed OK -> Len()=1, GetMinLatency=nil, Select=ErrNoAliveDialer")
+        if any(k.get("kind") == "open" and k.get("key") == SENTINEL_KEY for k in ctx.known):
+            ctx.report(what, {"stream": "c15oob", "ops": oo[:7], "impl": oi[:7]}, key=SENTINEL_KEY)
+        else:
+            ctx.say("FINDING-CANDIDATE (outside the proved hypotheses, not gating) key=%s: %s" % (SENTINEL_KEY, what))
     stats = json.load(open(os.path.join(ctx.out, "c15.stats.json")))
     ctx.samples = (stats["samples"] or []) + read_lines(os.path.join(ctx.out, "c15.ops"))[:8]
     ctx.cov["input_distribution"] = stats["counters"]
+    ctx.cov["input_distribution_dial"] = json.load(open(os.path.join(ctx.out, "c15dial.stats.json")))["counters"]
     ctx.assumptions = ["histories are generated (seeded): 0..12 nodes, tolerance 0..1000 ns, latencies/offsets boundary-heavy small integers; "
-                       "stream c15oob additionally places one node's offset at the time.Hour sentinel (outside the theorems' hypotheses)"]
+                       "stream c15oob additionally places one node's offset at the time.Hour sentinel (outside the theorems' hypotheses)",
+                       "theorems with suffix _partial assume sorting latency + tolerance < time.Hour (false without it: nil_iff_no_alive_full_fails)",
+                       "tolerance-related theorems assume a dialer that has reported a latency under the current policy keeps reporting one (true of LatenciesN / moving average; broken only by restoring an emptier health snapshot)"]
     return ctx.finish(rule="one evaluation = one op line (event, policy switch or selection) answered by the real code and by the model; "
                            "distinct_nontrivial = distinct implementation answers to event/selection ops",
                       evaluations=n_eval, distinct=len(distinct))
